@@ -157,7 +157,7 @@ func overlayFor(repo, verif string, dirs []string, genDir string) (map[string]st
 		}
 		repl := strings.NewReplacer("*os.File", "*verifFile", "os.OpenFile(", "verifOpenFile(", "os.ReadFile(", "verifReadFile(",
 			"os.Remove(", "verifRemove(", "os.MkdirAll(", "verifMkdirAll(", "os.IsNotExist(", "verifIsNotExist(",
-			"filepath.Glob(", "verifGlob(", "os.O_RDWR", "verifO_RDWR", "os.O_CREATE", "verifO_CREATE", "os.ModePerm", "verifModePerm", "os.FileMode", "verifFileMode",
+			"filepath.Glob(", "verifGlob(", "os.O_RDWR", "verifO_RDWR", "os.O_CREATE", "verifO_CREATE", "os.O_TRUNC", "verifO_TRUNC", "os.O_APPEND", "verifO_APPEND", "os.O_WRONLY", "verifO_WRONLY", "os.O_RDONLY", "verifO_RDONLY", "os.ModePerm", "verifModePerm", "os.FileMode", "verifFileMode",
 			"\t\"os\"\n", "\t_ \"os\"\n")
 		for _, fn := range []string{"file_store.go", "util.go"} {
 			src, err := os.ReadFile(filepath.Join(repo, "store", "file", fn))
